@@ -96,12 +96,18 @@ func (w *World) checkAnyWriters(r *Report, rule, pkgRel, typ, field string, allo
 }
 
 func checkC02(w *World, r *Report) {
-	r.Explanation = "Structural clause of C02: (V-1) balances, stake powers, delegatee totals and reward counters are written only by their closed sets of primitives, and the raw balance setter only by the EVM write-back; (V-2) every debit primitive call is paired on its success path with a credit of the SAME SSA value — transfer (with refund of the same value on failure), staking (stake power = AmountToPower of the debited amount, with the validation guard that the amount is a positive multiple of the power unit so the conversion is exact), the matured-stake refund (PowerToAmount(stake power) credited to the stake owner, then the frozen stake deleted, error before the delete), reward withdrawal (the same requested amount leaves the reward and reaches the balance), fees (C16); (V-3) negative (>= 2^255) amounts are rejected before anything else and the debit primitive refuses amounts above the balance; (V-4) every stake is constructed with a ledger key that is unique per construction (the transaction hash, or a loop-variant value)."
+	r.Explanation = "Structural clause of C02: (V-1) balances, stake powers, delegatee totals and reward counters are written only by their closed sets of primitives, and the raw balance setter only by the EVM write-back; (V-2) every debit primitive call is paired on its success path with a credit of the SAME SSA value — transfer (with refund of the same value on failure), staking (stake power = AmountToPower of the debited amount, with the validation guard that the amount is a positive multiple of the power unit so the conversion is exact), the matured-stake refund (PowerToAmount(stake power) credited to the stake owner, then the frozen stake deleted, error before the delete), reward withdrawal (the same requested amount leaves the reward and reaches the balance), fees (C16); (V-3) negative (>= 2^255) amounts are rejected before anything else and the debit primitive refuses amounts above the balance; (V-4) every stake is constructed with a ledger key that is unique per construction (the transaction hash, or a loop-variant value); (V-5) the ledger returns through an overlay what was written through it and commits its net effect (C18 L-1: a value-carrying record that an overlay loses is value destroyed)."
 	r.NotCovered = "the global sum itself; wrap-around of Balance.Add (needs total supply < 2^256, a runtime bound); conservation inside the EVM; the ledger's overlay semantics (C18)."
 	v1(w, r)
 	v2(w, r)
 	v3(w, r)
 	v4(w, r)
+	// V-5: value written through an overlay must be read back through it (the
+	// defect repaired in 4cb05d1 lost stakes): C18 L-1
+	if r.importObs(w, func(t *Report) { l1(w, t) }, "L-1", "V-5") == 0 {
+		r.Undecided("V-5", "ledger-semantics", "the ledger's overlay semantics could not be evaluated")
+	}
+	r.Floor("V-5", 2, "ledger overlay semantics")
 	r.Floor("V-1", 14, "writers of value-carrying fields")
 	r.Floor("V-2", 10, "debit/credit pairs")
 	r.Floor("V-3", 4, "sign and sufficiency guards")
